@@ -140,6 +140,10 @@ def make(targets=None, timeout=3000, keep_going=True):
         return p.returncode == 0, p.stdout
 
 
+# generous limits: several checks may run at the same time on a loaded machine; these only guard against hangs
+SLOW_TIMEOUT = int(os.environ.get("VERIF_SLOW_TIMEOUT", "3000"))
+
+
 def vo_ok(vfile):
     """was this .v compiled (its .vo newer than the source)?"""
     v = os.path.join(COQ, vfile)
@@ -156,7 +160,7 @@ def coqc(path, timeout=300, cwd=None):
 def print_assumptions(props_file):
     """Re-compile Props/<file>.v standalone and return {theorem: [axioms]} from its Print Assumptions."""
     with BuildLock():
-        rc, out = coqc(os.path.join(COQ, props_file), timeout=600, cwd=COQ)
+        rc, out = coqc(os.path.join(COQ, props_file), timeout=SLOW_TIMEOUT, cwd=COQ)
     if rc != 0:
         raise CoqBuildError("coqc failed on %s" % props_file, out)
     # output blocks: "Closed under the global context" or "Axioms:\n name : type ..."
@@ -213,6 +217,7 @@ def forbidden_scan():
 def run_shards(name, header, shard_bodies, timeout=600):
     """shard_bodies: list of strings, each a complete Gallina fragment that ends by defining
     `result : list Z` (indices that mismatch; property violations are reported as -(index+1)).  Returns list of (rc, parsed list or None, raw)."""
+    timeout = max(timeout, SLOW_TIMEOUT)      # a shard takes seconds to a minute; the limit only guards against a hang, also under heavy load
     tmp = tempfile.mkdtemp(prefix="verif_%s_" % name)
     try:
         paths = []
